@@ -1055,6 +1055,27 @@ func c12(c *core.Ctx) {
 	c.Clause("C12.7", "a change of the supply record survives log merging in both directions: IsValuable keeps a log unless old and new value are equal — every comparison of old and new in it is an (in)equality, never an ordering test (a burn is a decrease; a dropped supply log leaves the issuer's asset-code trie unsaved while the holder's equity went down)")
 	c.Run("IsValuable-symmetric", func() { c12IsValuable(c) })
 
+	c.Clause("C12.8", "equity and supply roll back together: the journalling setters of the four asset records push their change log (which records the old value by reading the account) before they write the account — a log made after the write restores nothing, and a reverted issue would keep the equity while the supply goes back")
+	c.Run("asset-setters-journal-first", func() {
+		push := c.Method("chain/account.LogProcessor", "PushChangeLog")
+		n := 0
+		for _, m := range []string{"SetEquityState", "SetAssetCodeTotalSupply", "SetAssetCodeState", "SetAssetIdState", "SetAssetCode"} {
+			fn := c.Fn("chain/account.SafeAccount." + m)
+			raw := c.Method("chain/account.Account", m)
+			for _, w := range core.CallsIn(fn, raw) {
+				n++
+				ok := false
+				for _, p := range performsCalls(fn, push, 2) {
+					if core.Dominates(p, w) {
+						ok = true
+					}
+				}
+				c.Check("SafeAccount."+m+":PushChangeLog≺Account."+m, "journal-before-write", ok, w.Pos(), "the change log of %s is pushed (its old value read) before the raw write", m)
+			}
+		}
+		c.Floor("asset-setters/raw-writes", n, 5)
+	})
+
 	c.NotDecidedf("Σ equity over all holders = recorded total supply as an invariant over histories of transactions (arithmetic over runtime state; only the per-transaction shape — same amount on both sides, guards, closed writer sets — is decided)")
 	c.NotDecidedf("that no holder's equity becomes negative as a value: decided only structurally (non-negative amount; debit guarded by equity ≥ amount on the divisible path; indivisible path debits the whole holding)")
 	c.NotDecidedf("the journalled undo of the equity / supply logs (C07), the contents of Account.SetEquityState / SetAssetCodeTotalSupply themselves, and error exits after a failed READ between the two writes (they return a transaction-level error; the caller discards the whole transaction)")
